@@ -332,6 +332,7 @@ pub fn logical_for(ctx: &crate::obs::Ctx, label: &str, i: u64) -> Logical {
         1 | 2 => gen::SizeClass::One,
         3 => gen::SizeClass::Spill,
         4 if (i / 128) % 2 == 0 => gen::SizeClass::HugeRegular,
+        5 if (i / 128) % 4 == 1 => gen::SizeClass::HugeTiles,
         4..=8 => gen::SizeClass::Medium,
         _ => gen::SizeClass::Small,
     };
